@@ -83,6 +83,8 @@ theorem vecFor_grows (cfg : Cfg) (r : Reporter) (kind : UseKind) (name : Bytes) 
     · exact summaryVec_grows _ r name keys
     · exact histogramVec_grows _ r name keys _
   | histogram spec => exact histogramVec_grows _ r name keys _
+  | counterAs => exact counterVec_grows r name keys
+  | gaugeAs => exact gaugeVec_grows r name keys
 
 theorem finish_static_alloc (cfg : Cfg) (p : Reporter × VecResult) (tags : Tags) : Grows p.1 (finishAlloc cfg p tags).1 := by
   obtain ⟨r1, res⟩ := p
@@ -182,6 +184,14 @@ theorem vecFor_hit (cfg : Cfg) (r : Reporter) (kind : UseKind) (name : Bytes) (k
     simp only [Spec.C17.typeOf] at h
     obtain ⟨e, f, he, hf⟩ := h
     exact ⟨f, by simp [vecFor, histogramVec, he, hf, hitResult_of_some]⟩
+  | counterAs =>
+    simp only [Spec.C17.typeOf] at h
+    obtain ⟨f, hf⟩ := h
+    exact ⟨f, by simp [vecFor, counterVec, hf]⟩
+  | gaugeAs =>
+    simp only [Spec.C17.typeOf] at h
+    obtain ⟨f, hf⟩ := h
+    exact ⟨f, by simp [vecFor, gaugeVec, hf]⟩
 
 theorem hit_usable (cfg : Cfg) (r : Reporter) (kind : UseKind) (name : Bytes) (tags : Tags)
     (h : Hit cfg r kind (name, keysOf tags)) : ∃ k, (useMetric cfg r kind name tags).2 = .usable k := by
@@ -255,6 +265,8 @@ theorem vecFor_some_hit (cfg : Cfg) (r : Reporter) (kind : UseKind) (name : Byte
     | true => simpa [Spec.C17.typeOf, vecFor] using histogramVec_some_hit _ r name keys _ f h
     | false => simpa [Spec.C17.typeOf, vecFor] using summaryVec_some_hit _ r name keys f h
   | histogram spec => simpa [Spec.C17.typeOf, vecFor] using histogramVec_some_hit _ r name keys _ f h
+  | counterAs => simpa [Spec.C17.typeOf, vecFor] using counterVec_some_hit r name keys f h
+  | gaugeAs => simpa [Spec.C17.typeOf, vecFor] using gaugeVec_some_hit r name keys f h
 
 /-- a first use that returned a usable metric leaves a cached vector of its flavour behind -/
 theorem usable_hit (cfg : Cfg) (r : Reporter) (kind : UseKind) (name : Bytes) (tags : Tags)
@@ -284,5 +296,61 @@ theorem usable_hit (cfg : Cfg) (r : Reporter) (kind : UseKind) (name : Bytes) (t
     obtain ⟨f, hf⟩ := key _ rfl (Or.inr hk)
     simp only [hreg]
     exact (vecFor_some_hit cfg r kind name _ f hf).grows (finish_static_alloc cfg _ tags)
+
+/-! ### a vector pre-registered through `RegisterCounter` / `RegisterGauge` is the one `Allocate*` finds -/
+
+theorem counterVec_cached (r : Reporter) (name : Bytes) (keys : List Bytes) (f : Family)
+    (h : (counterVec r name keys).2 = .vec (some f)) :
+    lookupKey (counterVec r name keys).1.counters (name, keys) = some f := by
+  cases hl : lookupKey r.counters (name, keys) with
+  | some f0 =>
+    simp only [counterVec, hl] at h ⊢
+    injection h
+  | none =>
+    cases hr : register r.reg (mkFamily name keys .counter []) with
+    | err e => simp [counterVec, hl, hr] at h
+    | ok reg' =>
+      simp only [counterVec, hl, hr, VecResult.vec.injEq, Option.some.injEq] at h ⊢
+      simp [lookupKey_cons, h]
+
+theorem gaugeVec_cached (r : Reporter) (name : Bytes) (keys : List Bytes) (f : Family)
+    (h : (gaugeVec r name keys).2 = .vec (some f)) :
+    lookupKey (gaugeVec r name keys).1.gauges (name, keys) = some f := by
+  cases hl : lookupKey r.gauges (name, keys) with
+  | some f0 =>
+    simp only [gaugeVec, hl] at h ⊢
+    injection h
+  | none =>
+    cases hr : register r.reg (mkFamily name keys .gauge []) with
+    | err e => simp [gaugeVec, hl, hr] at h
+    | ok reg' =>
+      simp only [gaugeVec, hl, hr, VecResult.vec.injEq, Option.some.injEq] at h ⊢
+      simp [lookupKey_cons, h]
+
+/-- a usable result of `Register*` + `With(tags)`: the vector came back, its series key is `k`, and
+`With` left the caches alone -/
+theorem finishRegister_usable (p : Reporter × VecResult) (tags : Tags) (k : SeriesKey)
+    (h : (finishRegister p tags).2 = .usable k) :
+    ∃ f, p.2 = .vec (some f) ∧ k = ⟨f.name, tags⟩ ∧ SameStatic (finishRegister p tags).1 p.1 := by
+  obtain ⟨r1, res⟩ := p
+  cases res with
+  | err e => cases h
+  | vec o =>
+    cases o with
+    | none => cases h
+    | some f =>
+      simp only [finishRegister, Outcome.usable.injEq] at h
+      exact ⟨f, rfl, h.symm, withSeries_static r1 f tags⟩
+
+/-- `AllocateCounter` on a cached vector: no registration, no error, the vector's series -/
+theorem counter_use_of_cached (cfg : Cfg) (r : Reporter) (name : Bytes) (tags : Tags) (f : Family)
+    (h : lookupKey r.counters (name, keysOf tags) = some f) :
+    useMetric cfg r .counter name tags = (withSeries r f tags, .usable ⟨f.name, tags⟩) := by
+  simp [useMetric, counterVec, h, finishAlloc]
+
+theorem gauge_use_of_cached (cfg : Cfg) (r : Reporter) (name : Bytes) (tags : Tags) (f : Family)
+    (h : lookupKey r.gauges (name, keysOf tags) = some f) :
+    useMetric cfg r .gauge name tags = (withSeries r f tags, .usable ⟨f.name, tags⟩) := by
+  simp [useMetric, gaugeVec, h, finishAlloc]
 
 end Tally.Prom
